@@ -25,8 +25,10 @@ lengths up to several GiB cost nothing.
 
 Run as a script: udf_layout_cases.py SEED N [workdir]  (evaluates the cases with coqc, shards of 50)."""
 import sys, io, random
-if '/repo' not in sys.path:
-    sys.path.insert(0, '/repo')
+import os
+_TREE = os.environ.get('VERIF_REPO', '/repo')
+if _TREE not in sys.path:
+    sys.path.insert(0, _TREE)
 import pycdlib
 from pycdlib import pycdlibexception as pe
 
